@@ -466,7 +466,12 @@ pub fn get_best_move_until_stop(
     // A cached result may be deeper than the requested limit
     let starting_depth = max_depth.map_or(starting_depth, |d| starting_depth.min(d.max(1)));
 
-    for depth in starting_depth..=u8::MAX {
+    // The state stack holds 512 plies: keep room for the game so far, the principal
+    // variation walk below and the captures searched beyond the horizon
+    let depth_ceiling = 512usize.saturating_sub(game.len() + 96).clamp(1, u8::MAX as usize) as u8;
+    let starting_depth = starting_depth.min(depth_ceiling);
+
+    for depth in starting_depth..=depth_ceiling {
         // A cached root result is returned without polling the flag
         if found_move.is_some() && !continue_running.load(Relaxed) {
             return found_move;
